@@ -105,7 +105,7 @@ def edit_op(rng, req):
         k["to"] = t if len(axes) > 1 or rng.random() < 0.5 else t[a]
     elif choice == "unknown-position":
         t = to_dict()
-        t[a] = rng.choice(["middle", "centre", "Center", ""])
+        t[a] = rng.choice(["middle", "centre", "Center", "", " left", "le ft", "left "])
         k["to"] = t if len(axes) > 1 or rng.random() < 0.5 else t[a]
     elif choice == "unknown-boundary":
         w = rng.choice(["reflect", "wrap", "Fill", "constant", ""])      # (an empty word is no word either)
